@@ -916,12 +916,19 @@ pub struct Scenario {
     /// what the segment file's time stamps say when a daemon (re)starts on it and when a client attaches:
     /// 0 whatever the file system put there (just now); 1 last touched 2400 s ago (a daemon that had been up
     /// for 40 minutes: stores through the mapping do not move st_mtime); 2 January 2001 (before this machine
-    /// booted: the wall clock was stepped since); 3 one hour in the future (the wall clock was stepped back)
+    /// booted: the wall clock was stepped since); 3 one hour in the future (the wall clock was stepped back);
+    /// 4 / 5: not time stamps but permission bits - mode 0664 / 0666 (a daemon started under umask 002 / 000)
     pub file_times: u8,
 }
 
 /// Apply `Scenario::file_times` to a file.
 pub fn stamp_file(path: &Path, mode: u8) {
+    // 4 / 5: the permission bits a daemon started under umask 002 / 000 leaves (rw-rw-r-- / rw-rw-rw-)
+    if mode == 4 || mode == 5 {
+        use std::os::unix::fs::PermissionsExt;
+        let _ = std::fs::set_permissions(path, std::fs::Permissions::from_mode(if mode == 4 { 0o664 } else { 0o666 }));
+        return;
+    }
     let secs: i64 = match mode {
         1 => (crate::common::vclock::raw_real_s() as i64) - 2400,
         2 => 978_307_200,
